@@ -448,6 +448,10 @@ class Flow:
                 for e, a in zip(s.target.elts[1].elts, inner.args):
                     self.bind(e, t.atom('elem', (self.expr(a), idx_atom)), s,
                               op='for')
+            elif ifn == 'zip':
+                self.bind(s.target.elts[1], t.atom('tuple', tuple(
+                    t.atom('elem', (self.expr(a), idx_atom)) for a in inner.args)),
+                    s, op='for')
             else:
                 self.bind(s.target.elts[1], t.atom('elem', (seq, idx_atom)), s,
                           op='for')
